@@ -8,326 +8,12 @@
 //! (scenarios: orderings the specification's safeguards exist for — spend scanned before its
 //! receipt across 99..102-block gaps, batches longer than the nullifier retention, rewinds across
 //! spends, orphan expiry at exactly 40 blocks)
-use h_wallet::chain::{AbsTx, Chain, OutReq, Pool, TxReq};
+use h_wallet::chain::{OutReq, Pool, TxReq};
+use h_wallet::run::Run;
 use h_wallet::util::{NdjsonWriter, quiet_panics, seed_from_env};
-use h_wallet::wallet::W;
-use rand::{Rng, SeedableRng, seq::SliceRandom};
+use rand::{Rng, SeedableRng};
 use rand_chacha::ChaChaRng;
-use serde_json::{Value, json};
-use zcash_client_backend::proto::compact_formats::CompactTx;
-
-fn res_class<T>(r: &Result<Result<T, String>, String>) -> (&'static str, String) {
-    match r {
-        Ok(Ok(_)) => ("ok", String::new()),
-        Ok(Err(e)) => ("err", e.chars().take(300).collect()),
-        Err(p) => ("panic", p.chars().take(300).collect()),
-    }
-}
-
-struct Run<'a> {
-    w: W,
-    chain: Chain,
-    out: &'a mut NdjsonWriter,
-    rng: ChaChaRng,
-    ironwood: bool,
-    next_value: u64,
-    aborted: bool,
-    orphaned: Vec<(AbsTx, CompactTx)>,
-    /// also project the note commitment trees (C06) after every operation
-    trees: bool,
-    salt: u64,
-}
-
-impl<'a> Run<'a> {
-    fn new(out: &'a mut NdjsonWriter, seed: u64, ironwood: bool, label: Value) -> Self {
-        Self::with_retention(out, seed, ironwood, None, label)
-    }
-
-    fn with_retention(out: &'a mut NdjsonWriter, seed: u64, ironwood: bool, interval: Option<u32>, label: Value) -> Self {
-        let mut rng = ChaChaRng::seed_from_u64(seed);
-        let (w, keys) = W::with_retention(ironwood, interval);
-        let chain = Chain::new(w.base, keys, &mut rng, ironwood);
-        let trees = std::env::var("VERIF_TREES").map(|v| v == "1").unwrap_or(false);
-        let mut r = Run { w, chain, out, rng, ironwood, next_value: 0, aborted: false, orphaned: vec![], trees, salt: seed };
-        let post = r.post();
-        // retention grid of this wallet: interval (0: policy inactive, NU6.3 not active) and first height it applies to
-        let grid = if ironwood { interval.unwrap_or(144) } else { 0 };
-        let gbase = r.w.base;   // heights are logged relative to `base`; absolute = base + rel
-        r.out.emit(&json!({"a": "reset", "hist": label, "ironwood": ironwood, "grid": grid, "gbase": gbase, "post": post}));
-        r
-    }
-
-    fn post(&mut self) -> Value {
-        let mut p = self.w.project(&self.chain);
-        if self.trees {
-            self.salt += 1;
-            p["trees"] = self.w.project_trees(&self.chain, self.salt);
-        }
-        p
-    }
-
-    fn abs(&self, rel: u32) -> u32 {
-        self.chain.base + rel
-    }
-
-    fn block_event(&self, h: u32) -> Value {
-        let b = &self.chain.blocks[&h];
-        let txs: Vec<Value> = b
-            .txs
-            .iter()
-            .map(|t| {
-                json!({
-                    "t": t.uid,
-                    "outs": t.outs.iter().map(|o| json!({"n": o.note, "pool": o.pool.code(), "v": o.value, "acct": o.acct})).collect::<Vec<_>>(),
-                    "spends": t.spends,
-                })
-            })
-            .collect();
-        // commitments this block adds to each pool's tree (Sapling, Orchard, Ironwood)
-        let prev = self.chain.sizes_at(h - 1);
-        let cm: Vec<u32> = (0..3).map(|i| b.sizes[i] - prev[i]).collect();
-        json!({"a": "block", "h": self.w.rel(h), "b": b.uid, "txs": txs, "cm": cm})
-    }
-
-    fn block(&mut self, txs: &[TxReq], remined: &[(AbsTx, CompactTx)], check: bool) -> u32 {
-        let h = self.chain.extend_with(&self.w.net, txs, remined, &mut self.rng);
-        let mut ev = self.block_event(h);
-        ev["post"] = if check { self.post() } else { json!({"chk": false}) };
-        self.out.emit(&ev);
-        h
-    }
-
-    fn empties(&mut self, k: u32) {
-        for i in 0..k {
-            self.block(&[], &[], i + 1 == k);
-        }
-    }
-
-    /// one transaction paying the wallet; returns the note id
-    fn recv(&mut self, pool: Pool, value: u64, internal: bool) -> u32 {
-        let n = self.chain.next_note;
-        self.block(&[TxReq { outs: vec![OutReq { pool, acct: 1, internal, diversified: false, value }], spends: vec![], foreign_spends: vec![] }], &[], true);
-        n
-    }
-
-    /// one transaction spending `note`, with `change` back to the wallet (0: none)
-    fn spend(&mut self, note: u32, change: u64, change_pool: Pool) {
-        let total = self.chain.notes[&note].value;
-        let mut outs = vec![OutReq { pool: change_pool, acct: 0, internal: false, diversified: false, value: total - change }];
-        if change > 0 {
-            outs.push(OutReq { pool: change_pool, acct: 1, internal: change_pool != Pool::Sapling, diversified: false, value: change });
-        }
-        self.block(&[TxReq { outs, spends: vec![note], foreign_spends: vec![] }], &[], true);
-    }
-
-    fn tip(&mut self, h: u32) {
-        let res = self.w.update_tip(h);
-        let (c, e) = res_class(&res);
-        let post = self.post();
-        self.out.emit(&json!({"a": "tip", "h": self.w.rel(h), "res": c, "err": e, "post": post}));
-        self.aborted |= c == "panic";
-    }
-
-    fn tip_top(&mut self) {
-        self.tip(self.chain.top());
-    }
-
-    /// returns whether the scan succeeded
-    fn scan(&mut self, from: u32, limit: usize) -> bool {
-        let res = self.w.scan(&self.chain, from, limit);
-        let (c, e) = res_class(&res);
-        let post = self.post();
-        self.out.emit(&json!({"a": "scan", "from": self.w.rel(from), "n": limit, "res": c, "err": e, "post": post}));
-        self.aborted |= c == "panic";
-        c == "ok"
-    }
-
-    /// rewind; `fork`: the chain above the height the wallet settled on is then replaced
-    fn trunc(&mut self, req: u32, fork: bool) -> Option<u32> {
-        let res = self.w.truncate(req);
-        let (c, e) = res_class(&res);
-        let to_abs = match &res { Ok(Ok(h)) => Some(*h), _ => None };
-        let fork = fork && to_abs.is_some();
-        if fork {
-            let to_abs = to_abs.unwrap();
-            // remember pure-receipt transactions of the orphaned blocks: they may be mined again
-            for (_, b) in self.chain.blocks.range(to_abs + 1..) {
-                for (i, t) in b.txs.iter().enumerate() {
-                    if t.spends.is_empty() && t.outs.iter().any(|o| o.note > 0) && self.orphaned.len() < 4 {
-                        self.orphaned.push((t.clone(), b.cb.vtx[i].clone()));
-                    }
-                }
-            }
-            self.chain.truncate(to_abs);
-        }
-        let post = self.post();
-        self.out.emit(&json!({"a": "trunc", "req": self.w.rel(req), "res": c, "err": e,
-                              "to": to_abs.map(|h| self.w.rel(h)).unwrap_or(-1), "fork": fork, "post": post}));
-        self.aborted |= c == "panic";
-        to_abs
-    }
-
-    fn scanned(&self) -> Vec<i64> {
-        self.w.project(&self.chain)["blocks"].as_array().unwrap().iter().map(|v| v.as_i64().unwrap()).collect()
-    }
-
-    /// catch up completely, then compare with a fresh wallet that scans the chain once, in order
-    fn catch_up_and_fresh(&mut self) {
-        let top = self.chain.top();
-        if top == self.chain.base {
-            return;
-        }
-        self.tip(top);
-        let mut ok = !self.aborted;
-        while ok {
-            let scanned = self.scanned();
-            let Some(from) = (self.chain.base + 1..=top).find(|h| !scanned.contains(&self.w.rel(*h))) else { break };
-            let run = (from..=top).take_while(|h| !scanned.contains(&self.w.rel(*h))).count();
-            let limit = run.min(self.rng.gen_range(1..300));
-            ok = self.scan(from, limit);
-        }
-        if ok {
-            let (mut fresh, _) = W::new(self.ironwood);
-            let r1 = fresh.update_tip(top);
-            let r2 = fresh.scan(&self.chain, self.chain.base + 1, (top - self.chain.base) as usize);
-            if matches!(r1, Ok(Ok(_))) && matches!(r2, Ok(Ok(_))) {
-                let p = fresh.project(&self.chain);
-                self.out.emit(&json!({"a": "fresh", "notes": p["notes"], "bal": p["bal"], "balp": p["balp"], "blocks": p["blocks"]}));
-            } else {
-                self.out.emit(&json!({"a": "freshfail", "r1": format!("{r1:?}"), "r2": format!("{r2:?}")}));
-            }
-        }
-    }
-
-    // ---------------------------------------------------------------------------------------
-    // random histories
-
-    fn value(&mut self) -> u64 {
-        // mostly economic, sometimes around the dust boundary (MARGINAL_FEE = 5000)
-        self.next_value += 1;
-        match self.rng.gen_range(0..10) {
-            0 => 5000,
-            1 => 5001,
-            2 => 4999 - (self.next_value % 7),
-            _ => 10_000 + 1_000 * (self.next_value % 400) + self.rng.gen_range(0..1000),
-        }
-    }
-
-    fn pools(&self) -> Vec<Pool> {
-        if self.ironwood { vec![Pool::Sapling, Pool::Orchard, Pool::Ironwood] } else { vec![Pool::Sapling, Pool::Orchard] }
-    }
-
-    fn random_tx(&mut self, taken: &mut Vec<u32>) -> TxReq {
-        let pools = self.pools();
-        let mut outs = vec![];
-        let mut spends = vec![];
-        let mut foreign_spends = vec![];
-        let spendable: Vec<u32> = self.chain.spendable().into_iter().filter(|n| !taken.contains(n)).collect();
-        let kind = self.rng.gen_range(0..10);
-        if kind < 4 || spendable.is_empty() {
-            for _ in 0..self.rng.gen_range(1..=2) {
-                let pool = *pools.choose(&mut self.rng).unwrap();
-                let foreign = self.rng.gen_bool(0.25);
-                outs.push(OutReq {
-                    pool,
-                    acct: if foreign { 0 } else { 1 },
-                    internal: !foreign && pool != Pool::Sapling && self.rng.gen_bool(0.3),
-                    diversified: self.rng.gen_bool(0.3),
-                    value: self.value(),
-                });
-            }
-            if self.rng.gen_bool(0.2) {
-                foreign_spends.push(*pools.choose(&mut self.rng).unwrap());
-            }
-        } else {
-            let n = *spendable.choose(&mut self.rng).unwrap();
-            spends.push(n);
-            taken.push(n);
-            let mut total = self.chain.notes[&n].value;
-            if self.rng.gen_bool(0.2) {
-                if let Some(m) = spendable.iter().find(|m| **m != n) {
-                    spends.push(*m);
-                    taken.push(*m);
-                    total += self.chain.notes[m].value;
-                }
-            }
-            let pool = *pools.choose(&mut self.rng).unwrap();
-            match self.rng.gen_range(0..3) {
-                0 => outs.push(OutReq { pool, acct: 0, internal: false, diversified: false, value: total }),
-                1 => {
-                    let pay = total / 3 + 1;
-                    outs.push(OutReq { pool, acct: 0, internal: false, diversified: false, value: pay });
-                    outs.push(OutReq { pool, acct: 1, internal: pool != Pool::Sapling, diversified: false, value: total - pay });
-                }
-                _ => outs.push(OutReq { pool, acct: 1, internal: false, diversified: false, value: total.saturating_sub(1000).max(1) }),
-            }
-        }
-        TxReq { outs, spends, foreign_spends }
-    }
-
-    fn random_history(&mut self, ops: usize) {
-        let long_gaps = self.rng.gen_bool(0.35);
-        // some histories only rewind to the start of the most recent scan batch or above (no C06 taint)
-        let gentle_rewinds = self.rng.gen_bool(0.5);
-        let mut last_from = self.chain.base + 1;
-        for op_i in 0..=ops {
-            if self.aborted {
-                break;
-            }
-            let top = self.chain.top();
-            if top > self.chain.base && (op_i == ops || self.rng.gen_range(0..100) < 3) {
-                self.catch_up_and_fresh();
-                if op_i == ops {
-                    break;
-                }
-                continue;
-            }
-            let r = self.rng.gen_range(0..100);
-            if r < 30 || top == self.chain.base {
-                let ntx = match self.rng.gen_range(0..10) { 0..=1 => 0, 2..=7 => 1, _ => 2 };
-                let mut taken = vec![];
-                let txs: Vec<TxReq> = (0..ntx).map(|_| self.random_tx(&mut taken)).collect();
-                let remined = if !self.orphaned.is_empty() && self.rng.gen_bool(0.3) { vec![self.orphaned.remove(0)] } else { vec![] };
-                self.block(&txs, &remined, true);
-            } else if r < 38 {
-                let k = if long_gaps { *[3u32, 39, 40, 41, 99, 100, 101].choose(&mut self.rng).unwrap() } else { self.rng.gen_range(1..6) };
-                self.empties(k);
-            } else if r < 48 {
-                let h = if self.rng.gen_bool(0.7) { top } else { self.rng.gen_range(self.chain.base + 1..=top) };
-                self.tip(h);
-            } else if r < 88 {
-                let from = if self.rng.gen_bool(0.5) {
-                    let scanned = self.scanned();
-                    (self.chain.base + 1..=top).find(|h| !scanned.contains(&self.w.rel(*h))).unwrap_or(self.rng.gen_range(self.chain.base + 1..=top))
-                } else {
-                    self.rng.gen_range(self.chain.base + 1..=top)
-                };
-                let limit = match self.rng.gen_range(0..10) { 0..=3 => 1, 4..=6 => self.rng.gen_range(2..5), 7..=8 => self.rng.gen_range(5..30), _ => 250 };
-                // documented client protocol: the wallet learns the tip before scanning above it
-                let last = (from + limit as u32 - 1).min(top);
-                if self.w.tip().map(|t| t < last).unwrap_or(true) {
-                    self.tip(top);
-                }
-                if self.scan(from, limit) {
-                    last_from = last_from.max(from);
-                }
-            } else {
-                let req = if gentle_rewinds {
-                    let lo = last_from.saturating_sub(1).max(self.chain.base + 1).min(top);
-                    self.rng.gen_range(lo..=top)
-                } else if self.rng.gen_bool(0.6) {
-                    top.saturating_sub(self.rng.gen_range(0..6)).max(self.chain.base + 1)
-                } else {
-                    self.rng.gen_range(self.chain.base + 1..=top)
-                };
-                let fork = self.rng.gen_bool(0.7);
-                if let Some(to) = self.trunc(req, fork) {
-                    last_from = last_from.min(to + 1);
-                }
-            }
-        }
-    }
-}
+use serde_json::json;
 
 // -------------------------------------------------------------------------------------------
 // scenario library (DESIGN §1.4): each is one history
